@@ -237,6 +237,39 @@ func C05(c *fw.Ctx) {
 		}
 	})
 	c.Bound("skeletons", n)
+	// every value as the condition of every construct: bare literal, parenthesised, through a variable, negated twice
+	for _, v := range c14Values() {
+		for form := 0; form < 4; form++ {
+			if !c.Mine() {
+				continue
+			}
+			mk := func() *model.N {
+				switch form {
+				case 1:
+					return model.Grp(v.Mk())
+				case 2:
+					return model.Id("cv")
+				case 3:
+					return model.Un("!", model.Un("!", v.Mk()))
+				}
+				return v.Mk()
+			}
+			prog := []*model.N{model.Fun("uf", nil), model.Var("cv", v.Mk()), model.Var("n", model.Num(0)),
+				model.If(mk(), model.Print(model.Str("then")), model.Print(model.Str("else"))),
+				model.If(mk(), model.Print(model.Str("then-only")), nil),
+				model.If(mk(), model.Block(model.Print(model.Str("then-block"))), model.If(mk(), model.Print(model.Str("elif")), model.Print(model.Str("else2")))),
+				model.While(mk(), model.Block(model.Print(model.Str("while-body")), model.Break())),
+				model.While(model.Log(model.KwAnd, mk(), model.Bin("<", model.Id("n"), model.Num(2))), model.ExprS(model.Asg("n", model.Bin("+", model.Id("n"), model.Num(1))))),
+				model.Print(model.Id("n")),
+				model.For(nil, mk(), nil, model.Block(model.Print(model.Str("for-body")), model.Break())),
+				model.For(model.Var("i", model.Num(0)), model.Log(model.KwAnd, model.Bin("<", model.Id("i"), model.Num(2)), mk()), model.Asg("i", model.Bin("+", model.Id("i"), model.Num(1))), model.Print(model.Id("i"))),
+				model.Print(model.Str("end"))}
+			_, _, skipped := judge(c, prog, judgeOpts{SigPrefix: "condition-value"})
+			if !skipped {
+				c.R.States++
+			}
+		}
+	}
 	// stray break / continue / return at top level
 	for _, st := range []func() *model.N{model.Break, model.Continue, func() *model.N { return model.Return(nil) }, func() *model.N { return model.Return(model.Num(1)) }} {
 		for _, wrap := range []func(*model.N) *model.N{
